@@ -165,6 +165,29 @@ func c03Drive(args []string) error {
 		c03Dec2File(tw, rf.data)
 		rep.Count(rf.name, true, nil)
 	}
+	// canonical byte strings over all box shapes: the instances enumerated by BoxLayouts.tla
+	nInst := 0
+	if ip := argValue(args, "-instances", ""); ip != "" {
+		_ = readLines(ip, func(line []byte) error {
+			var in c01Inst
+			if err := json.Unmarshal(line, &in); err != nil {
+				return err
+			}
+			raw := toBytes(in.Bytes)
+			id := fmt.Sprintf("inst:%s/v%d/f%x/c%d/%v/%s/%s", in.Layout, in.Ver, in.Flags, in.Cnt, in.Pick, in.Hdr, in.Wrap)
+			tw.Reset(J{"obj": id, "kind": "box", "type": in.Layout})
+			c03Dec2Box(tw, raw)
+			c03Dec2File(tw, raw)
+			if d := c01Decode("DecodeBoxSR", raw); d.err == nil {
+				wb, eW, sb, eS := encBoth(d.obj)
+				tw.Ev(J{"ev": "enc2", "errW": errStr(eW), "errSW": errStr(eS), "same": bytes.Equal(wb, sb), "lenW": len(wb), "lenSW": len(sb)})
+			}
+			nInst++
+			rep.Count(id, true, nil)
+			return nil
+		})
+	}
+	rep.Extra["instances"] = nInst
 	rep.Samples = append(rep.Samples, J{"object": pool[0].Name})
 	rep.Extra["events"] = tw.N
 	rep.Extra["traces"] = tw.T
